@@ -44,6 +44,15 @@ impl EventLog {
         writer.flush()?;
         #[cfg(rip_verif)]
         rip_kernel::verif::point("log.flushed", || verif_fields(event, line.len()));
+        #[cfg(rip_verif)]
+        if rip_kernel::verif::frames_wanted() {
+            rip_kernel::verif::point("log.frame", || {
+                serde_json::json!({
+                    "log": self.path.to_string_lossy(),
+                    "frame": serde_json::to_value(event).unwrap_or(serde_json::Value::Null),
+                })
+            });
+        }
         Ok(())
     }
 
